@@ -4,8 +4,9 @@
    - one preservation lemma per label (push, pop, requeue, ack, purge, loader turn, persist tick);
    - refinement of the unlimited FIFO list under the hypotheses [wf_client] and [no_findings],
      hence configuration independence and queueLength = contents (partial theorems);
+   - the same over label lists with restarts ([Inv2]: the persistent store holds exactly what must come back);
    - the refutations of the full-strength statements (open findings F24, F40). *)
-From Coq Require Import List NArith ZArith Bool Lia Sorted.
+From Coq Require Import List NArith ZArith Bool Lia Sorted Permutation.
 Import ListNotations.
 From GMQ Require Import Data.QueueSwap.
 Open Scope N_scope.
@@ -1134,4 +1135,383 @@ Proof.
   apply andb_true_iff in Hn. destruct Hn as [Hn H3]. apply andb_true_iff in Hn. destruct Hn as [H1 H2].
   apply N.leb_le in H1. apply N.ltb_lt in H2.
   exact (run_refines_effective c ls q_init ghost_init (inv_init c) (conj H1 H2) Hw H3).
+Qed.
+
+(* ---- label lists with restarts ------------------------------------------------------------------------- *)
+Lemma ssorted_NoDup : forall l, ssorted l -> NoDup l.
+Proof.
+  induction l as [| a l IH]; intros H; [constructor|]. destruct (StronglySorted_inv H) as [Hs Hf]. constructor; [| auto].
+  intro Hin. rewrite Forall_forall in Hf. specialize (Hf a Hin). lia.
+Qed.
+
+Lemma sortN_In : forall l x, In x (sortN l) <-> In x l.
+Proof. induction l as [| h l IH]; intros x; cbn [sortN]; [tauto|]. rewrite insert_sorted_In, IH. cbn. intuition. Qed.
+
+Lemma sortN_ss : forall l, ssorted (sortN l).
+Proof. induction l; cbn [sortN]; [constructor | apply insert_sorted_ss; assumption]. Qed.
+
+Lemma restart_list_In : forall g k,
+  In k (restart_list g) <-> In k (g_pers g) /\ (In k (g_list g) \/ In k (g_outst g)).
+Proof. intros. unfold restart_list. rewrite sortN_In, filter_In, in_app_iff, inb_In. tauto. Qed.
+
+Lemma remove1_perm : forall k l, In k l -> Permutation l (k :: remove1 k l).
+Proof.
+  induction l as [| h l IH]; intros H; [contradiction|]. cbn [remove1]. destruct (N.eqb_spec k h).
+  - subst. apply Permutation_refl.
+  - destruct H as [H | H]; [congruence|]. eapply Permutation_trans; [apply perm_skip; apply IH; assumption | apply perm_swap].
+Qed.
+
+Lemma remove1_In_iff : forall k l x, In k l -> (In x l <-> x = k \/ In x (remove1 k l)).
+Proof.
+  intros k l x H. pose proof (remove1_perm k l H) as P. split.
+  - intros Hx. apply (Permutation_in _ P) in Hx. destruct Hx; [left; congruence | right; assumption].
+  - intros [Hx | Hx]; [subst; assumption | eapply remove1_In; eauto].
+Qed.
+
+(* the ghost's ready list and delivered-unsettled list never share or repeat an id *)
+Lemma ghost_nodup_step : forall g lab,
+  NoDup (g_list g ++ g_outst g) -> Forall (fun k => k < g_next g) (g_list g ++ g_outst g) ->
+  wf_step g lab = true -> NoDup (g_list (ghost_step g lab) ++ g_outst (ghost_step g lab)).
+Proof.
+  intros g lab Hn Hb Hw.
+  assert (Hpush : forall id, g_next g <=? id = true -> NoDup ((g_list g ++ [id]) ++ g_outst g)).
+  { intros id Hid. apply N.leb_le in Hid. rewrite <- app_assoc. cbn [app].
+    apply (Permutation_NoDup (Permutation_middle (g_list g) (g_outst g) id)). constructor; [| assumption].
+    intro Hin. rewrite Forall_forall in Hb. specialize (Hb id Hin). lia. }
+  destruct lab as [id p | | id p | id p | | | b | id p |]; cbn [ghost_step g_list g_outst wf_step] in *; try assumption.
+  - apply Hpush; assumption.
+  - destruct (g_list g) as [| x l'] eqn:El; cbn [g_list g_outst]; [rewrite El; assumption|].
+    apply (Permutation_NoDup (Permutation_middle l' (g_outst g) x)). exact Hn.
+  - apply andb_true_iff in Hw. destruct Hw as [Ho _]. apply inb_In in Ho.
+    apply (Permutation_NoDup (l := g_list g ++ g_outst g)); [| assumption].
+    cbn [app]. eapply Permutation_trans; [apply Permutation_app_head; apply remove1_perm; exact Ho|].
+    apply Permutation_sym. apply Permutation_middle.
+  - apply andb_true_iff in Hw. destruct Hw as [Ho _]. apply inb_In in Ho.
+    assert (P : Permutation (g_list g ++ g_outst g) (id :: (g_list g ++ remove1 id (g_outst g)))).
+    { eapply Permutation_trans; [apply Permutation_app_head; apply remove1_perm; exact Ho|].
+      apply Permutation_sym. apply Permutation_middle. }
+    pose proof (Permutation_NoDup P Hn) as Hn'. inversion Hn'; assumption.
+  - cbn [app]. clear - Hn. induction (g_list g) as [| a l IH]; [exact Hn|]. apply IH. inversion Hn; assumption.
+  - apply Hpush; assumption.
+  - rewrite app_nil_r. apply ssorted_NoDup. apply sortN_ss.
+Qed.
+
+Lemma ack_not_left : forall g id, NoDup (g_list g ++ g_outst g) -> In id (g_outst g) ->
+  ~ In id (g_list g) /\ ~ In id (remove1 id (g_outst g)).
+Proof.
+  intros g id Hn Ho.
+  assert (P : Permutation (g_list g ++ g_outst g) (id :: (g_list g ++ remove1 id (g_outst g)))).
+  { eapply Permutation_trans; [apply Permutation_app_head; apply remove1_perm; exact Ho|].
+    apply Permutation_sym. apply Permutation_middle. }
+  pose proof (Permutation_NoDup P Hn) as Hn'. inversion Hn' as [| ? ? Hni _]; subst. rewrite in_app_iff in Hni. tauto.
+Qed.
+
+Lemma persist_idem : forall st, s_flushed (store_persist (store_persist st)) = s_flushed (store_persist st).
+Proof.
+  intros st. unfold store_persist at 1. cbn [s_add s_upd s_del s_flushed]. unfold minus. cbn [filter app fold_left].
+  apply filter_all. intros; reflexivity.
+Qed.
+
+Definition live (st : store) (k : N) : Prop := In k (s_flushed (store_persist st)).
+
+Lemma live_iff : forall st k, live st k <->
+  (In k (s_flushed st) \/ (In k (s_add st) /\ ~ In k (s_del st)) \/ (In k (s_upd st) /\ ~ In k (s_del st))) /\
+  ~ (In k (s_del st) /\ ~ In k (s_add st)).
+Proof. intros. unfold live. apply persist_flushed_In. Qed.
+
+Record Inv2 (c : qcfg) (s : qstate) (g : ghost) : Prop := mkInv2 {
+  i2_inv : Inv c s g;
+  i2_nodup : NoDup (g_list g ++ g_outst g);
+  i2_pk : durable c = true -> forall k, live (pst s) k <-> In k (g_pers g) /\ (In k (g_list g) \/ In k (g_outst g));
+  i2_addfl : forall k, In k (s_add (pst s)) -> ~ In k (s_flushed (pst s))
+}.
+
+Lemma inv2_init : forall c, Inv2 c q_init ghost_init.
+Proof.
+  intros c. constructor; [apply inv_init | constructor | | intros k []].
+  intros _ k. rewrite live_iff. cbn. tauto.
+Qed.
+
+Lemma abs_in_ids : forall c s g, Inv c s g -> Forall (fun k => In k (allids s)) (g_list g).
+Proof.
+  intros c s g I. destruct I as [I_abs I_len I_ids_sorted I_ids_range I_lm I_ls I_next I_mem I_outst I_disk_ids I_settle I_tsettle I_notsw I_sw I_fl I_pkeys I_tkeys I_pers]. rewrite <- I_abs. unfold q_abs. apply Forall_app. split.
+  - rewrite Forall_forall in *. intros k Hk. apply I_mem; assumption.
+  - unfold abs_disk. rewrite Forall_forall. intros k Hk. apply filter_In in Hk. tauto.
+Qed.
+
+Lemma ghost_bound : forall c s g, Inv c s g -> Forall (fun k => k < g_next g) (g_list g ++ g_outst g).
+Proof.
+  intros c s g I. pose proof (abs_in_ids c s g I) as Hl. destruct I as [I_abs I_len I_ids_sorted I_ids_range I_lm I_ls I_next I_mem I_outst I_disk_ids I_settle I_tsettle I_notsw I_sw I_fl I_pkeys I_tkeys I_pers].
+  rewrite Forall_forall in *. intros k Hk. apply in_app_or in Hk.
+  assert (In k (allids s)) by (destruct Hk as [Hk | Hk]; [auto | apply I_outst; assumption]).
+  specialize (I_ids_range k H). lia.
+Qed.
+
+Lemma hyp_r_implies : forall c s g lab, lab <> Restart -> hyp_r_step c s g lab = true -> hyp_step c s lab = true.
+Proof.
+  intros c s g lab Hn H. destruct lab; cbn [hyp_r_step] in H; try exact H; [| congruence].
+  apply andb_true_iff in H. tauto.
+Qed.
+
+(* the persistent store keeps exactly what must come back: every label but Restart *)
+Lemma step2_pk : forall c s g lab, Inv2 c s g -> cfg_ok c -> lab <> Restart ->
+  wf_step g lab = true -> hyp_r_step c s g lab = true ->
+  let s' := fst (q_step c s lab) in let g' := ghost_step g lab in
+  (durable c = true -> forall k, live (pst s') k <-> In k (g_pers g') /\ (In k (g_list g') \/ In k (g_outst g'))) /\
+  (forall k, In k (s_add (pst s')) -> ~ In k (s_flushed (pst s'))).
+Proof.
+  intros c s g lab I2 Hc Hnr Hw Hh. destruct I2 as [I Hnd Hpk Haf]. pose proof I as I0. destruct I as [I_abs I_len I_ids_sorted I_ids_range I_lm I_ls I_next I_mem I_outst I_disk_ids I_settle I_tsettle I_notsw I_sw I_fl I_pkeys I_tkeys I_pers].
+  destruct lab as [id p | | id p | id p | | | b | id p |]; cbn [q_step fst ghost_step g_pers g_list g_outst]; try congruence.
+  - (* Push *)
+    cbn [wf_step] in Hw. apply N.leb_le in Hw.
+    pose proof (push_old_lt c s g id I0 Hw) as Hold. pose proof (push_id_not_pers c s g id I0 Hw) as Hnp.
+    assert (Hidl : ~ In id (g_list g) /\ ~ In id (g_outst g)).
+    { pose proof (ghost_bound c s g I0) as Hb. rewrite Forall_forall in Hb. split; intro Hin;
+        (assert (Hlt : id < g_next g) by (apply Hb; apply in_or_app; tauto)); lia. }
+    assert (Epst : pst (q_push c s id p) = if durable c && p then store_add (pst s) id else pst s).
+    { unfold q_push. cbn [pst]. reflexivity. }
+    rewrite Epst. split.
+    + intros Hd k. specialize (Hpk Hd k). rewrite Hd. cbn [andb]. destruct p.
+      * rewrite live_iff. cbn [store_add s_add s_upd s_del s_flushed]. rewrite set_key_In. rewrite live_iff in Hpk.
+        assert (Hdel : ~ In id (s_del (pst s))).
+        { intro Hin. rewrite Forall_forall in I_settle. specialize (I_settle id (ltac:(apply in_or_app; right; exact Hin))). lia. }
+        cbn [In]. rewrite in_app_iff. cbn [In].
+        destruct (N.eq_dec k id) as [E | E].
+        -- subst k. split; [intros _; split; [left; reflexivity | left; right; left; reflexivity] |].
+           intros _. split; [right; left; split; [right; reflexivity | exact Hdel] | tauto].
+        -- split.
+           ++ intros [A B]. assert (HH : In k (g_pers g) /\ (In k (g_list g) \/ In k (g_outst g))) by (apply Hpk; split; [tauto | tauto]).
+              destruct HH as [P1 P2]. split; [right; assumption | tauto].
+           ++ intros [[A | A] B]; [congruence|]. assert (HH : In k (g_list g) \/ In k (g_outst g)) by (destruct B as [[B | [B | []]] | B]; [tauto | congruence | tauto]).
+              destruct (proj2 Hpk (conj A HH)) as [X Y]. split; [tauto | tauto].
+      * rewrite Hpk. rewrite in_app_iff. cbn [In]. split; [tauto|]. intros [A [[B | [B | []]] | B]]; try tauto. subst k. contradiction.
+    + intros k Hk. destruct (durable c && p); [| apply Haf; assumption].
+      cbn [store_add s_add s_flushed] in *. apply set_key_In in Hk. destruct Hk as [Hk | Hk]; [apply Haf; assumption|].
+      subst k. intro Hin. rewrite Forall_forall in I_disk_ids.
+      assert (In id (allids s)) by (apply I_disk_ids; unfold st_all; rewrite !in_app_iff; tauto).
+      specialize (Hold id H). lia.
+  - (* Pop *)
+    unfold q_pop. destruct (mem s) as [| x t] eqn:Em; cbn [snd fst pst].
+    + destruct (g_list g) eqn:El; cbn [g_pers g_list g_outst]; rewrite ?El; [split; assumption|].
+      (* the ring is empty and so is the list (hypothesis): contradiction with El *)
+      exfalso. cbn [hyp_r_step hyp_step] in Hh. rewrite Em in Hh. destruct (abs_disk s) eqn:Ed; [| discriminate].
+      unfold q_abs in I_abs. rewrite Em, Ed in I_abs. discriminate.
+    + assert (El : g_list g = x :: (t ++ abs_disk s)) by (rewrite <- I_abs; unfold q_abs; rewrite Em; reflexivity).
+      rewrite El. cbn [g_pers g_list g_outst pst]. split; [| assumption].
+      intros Hd k. rewrite (Hpk Hd k), El. cbn [In]. tauto.
+  - (* Requeue *)
+    cbn [wf_step] in Hw. apply andb_true_iff in Hw. destruct Hw as [Ho Hp]. apply inb_In in Ho. apply eqb_prop in Hp.
+    unfold q_requeue. cbn [pst]. split.
+    + intros Hd k. specialize (Hpk Hd). rewrite Hd. cbn [andb In].
+      assert (Hrhs : (In k (g_pers g) /\ ((id = k \/ In k (g_list g)) \/ In k (remove1 id (g_outst g)))) <->
+                     (In k (g_pers g) /\ (In k (g_list g) \/ In k (g_outst g)))).
+      { rewrite (remove1_In_iff id (g_outst g) k Ho). intuition; subst; auto. }
+      rewrite Hrhs, <- (Hpk k). destruct p; [| tauto].
+      rewrite !live_iff. cbn [store_update s_add s_upd s_del s_flushed]. rewrite set_key_In.
+      destruct (N.eq_dec k id) as [E | E]; [| intuition].
+      subst k. assert (Hl : live (pst s) id) by (apply Hpk; split; [apply inb_In; congruence | tauto]).
+      rewrite live_iff in Hl. tauto.
+    + intros k Hk. destruct (durable c && p); cbn [store_update s_add s_flushed] in *; apply Haf; assumption.
+  - (* Ack *)
+    cbn [wf_step] in Hw. apply andb_true_iff in Hw. destruct Hw as [Ho Hp]. apply inb_In in Ho. apply eqb_prop in Hp.
+    destruct (ack_not_left g id Hnd Ho) as [Hnl Hnr'].
+    unfold q_ack. cbn [pst]. split.
+    + intros Hd k. specialize (Hpk Hd). rewrite Hd. cbn [andb].
+      destruct (N.eq_dec k id) as [E | E].
+      * subst k. split; [| intros [_ [A | A]]; contradiction].
+        intro Hl. exfalso. destruct p.
+        -- rewrite live_iff in Hl. cbn [store_del s_add s_upd s_del s_flushed] in Hl. rewrite !set_key_In in Hl.
+           destruct Hl as [[A | [[A B] | [A B]]] C]; try (apply B; right; reflexivity).
+           apply C. split; [right; reflexivity|]. intro Hadd. exact (Haf id Hadd A).
+        -- apply Hpk in Hl. destruct Hl as [Hpers _]. apply inb_In in Hpers. congruence.
+      * assert (Hrhs : (In k (g_pers g) /\ (In k (g_list g) \/ In k (remove1 id (g_outst g)))) <->
+                       (In k (g_pers g) /\ (In k (g_list g) \/ In k (g_outst g)))).
+        { rewrite (remove1_In_iff id (g_outst g) k Ho). intuition. }
+        rewrite Hrhs, <- (Hpk k). destruct p; [| tauto].
+        rewrite !live_iff. cbn [store_del s_add s_upd s_del s_flushed]. rewrite set_key_In. intuition.
+    + intros k Hk. destruct (durable c && p); cbn [store_del s_add s_flushed] in *; apply Haf; assumption.
+  - (* Purge *)
+    unfold q_purge. cbn [snd fst pst]. cbn [hyp_r_step] in Hh. apply andb_true_iff in Hh. destruct Hh as [_ Hh]. split.
+    + intros Hd k. rewrite Hd in *. cbn [negb orb] in Hh. apply andb_true_iff in Hh. destruct Hh as [Hh Hout].
+      apply andb_true_iff in Hh. destruct Hh as [Ha Hu].
+      destruct (s_add (pst s)) eqn:Ea; [| discriminate]. destruct (s_upd (pst s)) eqn:Eu; [| discriminate].
+      rewrite live_iff. cbn [store_purge s_add s_upd s_del s_flushed]. rewrite Ea, Eu. cbn [In].
+      rewrite forallb_forall in Hout. split; [tauto|]. intros [A [[] | B]]. specialize (Hout k B).
+      apply negb_true_iff in Hout. apply inb_false in Hout. contradiction.
+    + intros k Hk. destruct (durable c); cbn [store_purge s_add s_flushed] in *; [tauto | apply Haf; assumption].
+  - (* Loader *)
+    assert (E : pst (q_loader c s) = pst s) by (unfold q_loader; destruct (loader_proceeds c s); reflexivity).
+    rewrite E. split; assumption.
+  - (* Tick *)
+    destruct b; unfold q_tick; cbn [pst]; [| split; assumption]. split.
+    + intros Hd k. unfold live. rewrite persist_idem. apply Hpk; assumption.
+    + intros k Hk. cbn in Hk. contradiction.
+  - cbn [hyp_r_step hyp_step] in Hh. discriminate.
+Qed.
+
+Lemma firstn_short : forall {A} n (l : list A), (length (firstn n l) < n)%nat -> firstn n l = l.
+Proof. intros A n l H. rewrite firstn_length in H. apply firstn_all2. lia. Qed.
+
+Lemma last_nil_or_In : forall (l : list N) d, l = [] \/ In (last l d) l.
+Proof. intros [| a l] d; [left; reflexivity | right; apply last_In; discriminate]. Qed.
+
+Lemma step_restart : forall c s g, Inv2 c s g -> cfg_ok c -> durable c = true ->
+  Inv c (q_restart c s) (ghost_step g Restart).
+Proof.
+  intros c s g I2 [H2 HW] Hd. destruct I2 as [I Hnd Hpk Haf]. specialize (Hpk Hd). pose proof I as I0.
+  destruct I as [I_abs I_len I_ids_sorted I_ids_range I_lm I_ls I_next I_mem I_outst I_disk_ids I_settle I_tsettle I_notsw I_sw I_fl I_pkeys I_tkeys I_pers].
+  destruct I_fl as [Fp Ft].
+  unfold q_restart. rewrite Hd. cbn [ghost_step].
+  set (fl := s_flushed (store_persist (pst s))).
+  assert (Sfl : ssorted fl) by (apply persist_flushed_ss; assumption).
+  assert (Hfl_ids : forall k, In k fl -> In k (allids s)).
+  { intros k Hk. apply persist_flushed_In in Hk. rewrite Forall_forall in I_disk_ids. apply I_disk_ids. unfold st_all. rewrite !in_app_iff. tauto. }
+  assert (Efl : fl = restart_list g).
+  { apply ssorted_unique; [assumption | apply sortN_ss |]. intros k. rewrite restart_list_In. apply Hpk. }
+  assert (Efilter : fl = filter (fun k => (0 <? k) && inb k fl) (allids s)).
+  { apply ssorted_unique; [assumption | apply ssorted_filter; assumption |].
+    intros k. rewrite filter_In, andb_true_iff, N.ltb_lt, inb_In. split; [| tauto].
+    intros Hk. pose proof (Hfl_ids k Hk) as Hi. rewrite Forall_forall in I_ids_range. specialize (I_ids_range k Hi). tauto. }
+  assert (Hm : maxram c <> 0) by lia.
+  set (n := N.to_nat (maxram c)).
+  assert (Eld : store_iter (mkStore [] [] [] fl) 0 (maxram c) = firstn n fl).
+  { rewrite (store_iter_eq _ _ _ Hm). cbn [s_flushed]. fold n. f_equal. apply filter_all. intros x _. apply N.leb_le. lia. }
+  rewrite Eld. set (ld := firstn n fl).
+  assert (Sld : ssorted ld) by (apply ssorted_firstn; assumption).
+  assert (Hld_fl : forall k, In k ld -> In k fl) by (intros k Hk; eapply In_firstn; eauto).
+  assert (Erest : filter (fun k => (last ld 0 <? k) && inb k fl) (allids s) = skipn n fl).
+  { apply (prefix_split (fun k => inb k fl) 0 (allids s) n fl ld); [assumption | exact Efilter | reflexivity]. }
+  set (sw := maxram c <=? N.of_nat (length ld)).
+  set (ql := if sw then Z.of_nat (length fl) else Z.of_N (N.of_nat (length ld))).
+  set (s' := mkQ ld (mkStore [] [] [] fl) store_empty sw (last ld 0) (last ld 0) ql (allids s)).
+  assert (Hon : forall k, disk_ahead s' k = (last ld 0 <? k) && inb k fl).
+  { intros k. unfold disk_ahead, on_disk, s'. cbn [lastMem pst tst s_add s_flushed store_empty]. unfold inb. cbn [existsb orb]. rewrite !orb_false_r. reflexivity. }
+  assert (Eabs' : abs_disk s' = skipn n fl).
+  { unfold abs_disk. rewrite (filter_ext _ _ Hon). exact Erest. }
+  assert (Hshort : sw = false -> ld = fl).
+  { intros Hs. unfold sw in Hs. apply N.leb_gt in Hs. apply firstn_short. unfold ld, n in *. lia. }
+  assert (Hlast_lt : last ld 0 < g_next g).
+  { destruct (last_nil_or_In ld 0) as [E | Hin]; [rewrite E; exact I_next|].
+    pose proof (Hfl_ids _ (Hld_fl _ Hin)) as Hi. rewrite Forall_forall in I_ids_range. specialize (I_ids_range _ Hi). lia. }
+  constructor; unfold s'; cbn [mem swapped lastStored lastMem qlen allids tst pst g_list g_next g_outst g_pers]; try assumption.
+  - unfold q_abs. fold s'. change (mem s') with ld. rewrite Eabs'. unfold ld. rewrite firstn_skipn. exact Efl.
+  - rewrite <- Efl. unfold ql. destruct sw eqn:Esw; [reflexivity|]. rewrite (Hshort eq_refl). lia.
+  - rewrite Forall_forall. intros k Hk. split; [apply ssorted_last_max; assumption | apply Hfl_ids; apply Hld_fl; assumption].
+  - constructor.
+  - unfold st_all. cbn [s_add s_upd s_del s_flushed store_empty app]. rewrite app_nil_r. rewrite Forall_forall. exact Hfl_ids.
+  - constructor.
+  - split; reflexivity.
+  - intros Hs. fold s'. rewrite Forall_forall. intros k Hk.
+    assert (E0 : skipn n fl = []).
+    { pose proof (firstn_skipn n fl) as E. fold ld in E. rewrite (Hshort Hs) in E. apply (app_inv_head fl). rewrite app_nil_r. exact E. }
+    unfold abs_disk in Eabs'. rewrite E0 in Eabs'. exact (filter_nil_inv _ _ Eabs' k Hk).
+  - intros _. split; [lia|]. fold s'. rewrite Forall_forall. intros k Hk Ha. rewrite Hon in Ha. apply andb_true_iff in Ha. destruct Ha as [Ha _].
+    apply N.ltb_lt in Ha. lia.
+  - cbn [s_flushed store_empty]. split; [assumption | constructor].
+  - cbn [s_add s_upd s_flushed app]. rewrite Forall_forall. intros k Hk. split; [assumption|]. apply (Hpk k). exact Hk.
+  - cbn [s_add s_flushed store_empty app]. constructor.
+Qed.
+
+Lemma step2_all : forall c s g lab, Inv2 c s g -> cfg_ok c -> wf_step g lab = true -> hyp_r_step c s g lab = true ->
+  Inv2 c (fst (q_step c s lab)) (ghost_step g lab) /\
+  snd (q_step c s lab) = snd (gspec_step g lab).
+Proof.
+  intros c s g lab I2 Hc Hw Hh.
+  assert (Hnd' : NoDup (g_list (ghost_step g lab) ++ g_outst (ghost_step g lab))).
+  { destruct I2 as [I Hnd _ _]. apply ghost_nodup_step; [assumption | eapply ghost_bound; eauto | assumption]. }
+  destruct lab as [id p | | id p | id p | | | b | id p |] eqn:El.
+  9: { (* Restart *)
+    cbn [hyp_r_step] in Hh. cbn [q_step fst snd gspec_step].
+    split; [| reflexivity].
+    pose proof (step_restart c s g I2 Hc Hh) as I'. destruct I2 as [I Hnd Hpk Haf]. specialize (Hpk Hh).
+    constructor; [exact I' | exact Hnd' | | ].
+    - intros _ k. unfold q_restart. rewrite Hh. cbn [pst ghost_step g_pers g_list g_outst]. unfold live.
+      change (store_persist {| s_add := []; s_upd := []; s_del := []; s_flushed := s_flushed (store_persist (pst s)) |})
+        with (store_persist (store_persist (pst s))).
+      rewrite persist_idem. rewrite restart_list_In. fold (live (pst s) k). rewrite (Hpk k). cbn [In]. tauto.
+    - intros k Hk. unfold q_restart in Hk. rewrite Hh in Hk. cbn in Hk. contradiction. }
+  all: rewrite <- El in *;
+    assert (Hnr : lab <> Restart) by (rewrite El; discriminate);
+    pose proof (hyp_r_implies c s g lab Hnr Hh) as Hh0;
+    destruct (step_all c s g lab (i2_inv _ _ _ I2) Hc Hw Hh0) as (I' & Eo & _);
+    destruct (step2_pk c s g lab I2 Hc Hnr Hw Hh) as [Hpk' Haf'];
+    (split; [constructor; assumption |]);
+    unfold gspec_step; cbn [snd]; rewrite Eo; rewrite El; reflexivity.
+Qed.
+
+Lemma run2_refines : forall c ls s g, Inv2 c s g -> cfg_ok c -> wf_client_from g ls = true -> hyps_r_from c s g ls = true ->
+  snd (q_run c s ls) = snd (gspec_run g ls) /\
+  q_abs (fst (q_run c s ls)) = g_list (fst (gspec_run g ls)) /\
+  qlen (fst (q_run c s ls)) = Z.of_nat (length (g_list (fst (gspec_run g ls)))).
+Proof.
+  intros c. induction ls as [| lab t IH]; intros s g I2 Hc Hw Hh.
+  - cbn [q_run gspec_run fst snd]. destruct I2 as [I _ _ _]. split; [reflexivity|]. split; [apply (inv_abs _ _ _ I) | apply (inv_len _ _ _ I)].
+  - cbn [wf_client_from hyps_r_from] in Hw, Hh. apply andb_true_iff in Hw, Hh. destruct Hw as [Hw1 Hw2]. destruct Hh as [Hh1 Hh2].
+    destruct (step2_all c s g lab I2 Hc Hw1 Hh1) as (I' & Eo).
+    cbn [q_run gspec_run]. unfold gspec_step in *. cbn [snd] in Eo.
+    destruct (q_step c s lab) as [s1 o] eqn:E1. cbn [fst snd] in *.
+    specialize (IH s1 (ghost_step g lab) I' Hc Hw2 Hh2).
+    destruct (q_run c s1 t) as [s2 os]. destruct (gspec_run (ghost_step g lab) t) as [g2 os']. cbn [fst snd] in *.
+    destruct IH as (A & B & C). subst. repeat split; try reflexivity; assumption.
+Qed.
+
+Lemma no_findings_restart_cfg : forall c ls, no_findings_restart c ls = true -> cfg_ok c /\ hyps_r_from c q_init ghost_init ls = true.
+Proof.
+  intros c ls H. unfold no_findings_restart in H. apply andb_true_iff in H. destruct H as [H H3]. apply andb_true_iff in H. destruct H as [H1 H2].
+  apply N.leb_le in H1. apply N.ltb_lt in H2. unfold cfg_ok. auto.
+Qed.
+
+(* refinement of the unlimited list over label lists WITH restarts *)
+Lemma refines_unlimited_restarts : forall c ls, wf_client ls = true -> no_findings_restart c ls = true ->
+  snd (q_run c q_init ls) = snd (gspec_run ghost_init ls) /\
+  q_abs (fst (q_run c q_init ls)) = g_list (fst (gspec_run ghost_init ls)) /\
+  qlen (fst (q_run c q_init ls)) = Z.of_nat (length (g_list (fst (gspec_run ghost_init ls)))).
+Proof.
+  intros c ls Hw Hn. destruct (no_findings_restart_cfg c ls Hn) as [Hc Hh].
+  exact (run2_refines c ls q_init ghost_init (inv2_init c) Hc Hw Hh).
+Qed.
+
+Lemma gspec_run_client : forall ls g,
+  fst (gspec_run g ls) = fst (gspec_run g (client ls)) /\
+  client_outs ls (snd (gspec_run g ls)) = snd (gspec_run g (client ls)).
+Proof.
+  induction ls as [| lab t IH]; intros g; [split; reflexivity|].
+  unfold client in *. cbn [filter gspec_run].
+  destruct (is_client lab) eqn:Ec.
+  - cbn [gspec_run]. destruct (gspec_step g lab) as [g1 o]. specialize (IH g1).
+    destruct (gspec_run g1 t) as [g2 os]. destruct (gspec_run g1 (filter is_client t)) as [g2' os'].
+    cbn [fst snd client_outs] in *. rewrite Ec. destruct IH as [A B]. subst. split; reflexivity.
+  - assert (Hs : gspec_step g lab = (g, ONone)) by (destruct lab; try discriminate; reflexivity). rewrite Hs.
+    specialize (IH g). destruct (gspec_run g t) as [g2 os]. cbn [fst snd client_outs] in *. rewrite Ec. exact IH.
+Qed.
+
+Lemma config_independent_restarts : forall m1 m2 ls1 ls2,
+  wf_client ls1 = true -> wf_client ls2 = true -> client ls1 = client ls2 ->
+  no_findings_restart (mkCfg true m1) ls1 = true -> no_findings_restart (mkCfg true m2) ls2 = true ->
+  let r1 := q_run (mkCfg true m1) q_init ls1 in
+  let r2 := q_run (mkCfg true m2) q_init ls2 in
+  client_outs ls1 (snd r1) = client_outs ls2 (snd r2) /\ q_abs (fst r1) = q_abs (fst r2).
+Proof.
+  intros m1 m2 ls1 ls2 W1 W2 Ec N1 N2 r1 r2.
+  destruct (refines_unlimited_restarts _ _ W1 N1) as (O1 & A1 & _). destruct (refines_unlimited_restarts _ _ W2 N2) as (O2 & A2 & _).
+  unfold r1, r2. rewrite O1, O2, A1, A2.
+  destruct (gspec_run_client ls1 ghost_init) as [F1 C1]. destruct (gspec_run_client ls2 ghost_init) as [F2 C2].
+  rewrite C1, C2, F1, F2, Ec. split; reflexivity.
+Qed.
+
+Lemma hyps_r_from_app : forall c a b s g, hyps_r_from c s g (a ++ b) = true -> hyps_r_from c s g a = true.
+Proof.
+  intros c. induction a as [| lab a IH]; intros b s g H; [reflexivity|]. cbn [app hyps_r_from] in *.
+  apply andb_true_iff in H. destruct H as [H1 H2]. rewrite H1. cbn [andb]. eapply IH; eauto.
+Qed.
+
+Lemma queue_length_restarts : forall c ls1 ls2,
+  wf_client (ls1 ++ ls2) = true -> no_findings_restart c (ls1 ++ ls2) = true ->
+  let s := fst (q_run c q_init ls1) in
+  qlen s = Z.of_nat (length (q_abs s)) /\ q_abs s = g_list (fst (gspec_run ghost_init ls1)).
+Proof.
+  intros c ls1 ls2 Hw Hn s. destruct (no_findings_restart_cfg _ _ Hn) as [Hc Hh].
+  apply wf_client_from_app in Hw. apply hyps_r_from_app in Hh.
+  destruct (run2_refines c ls1 q_init ghost_init (inv2_init c) Hc Hw Hh) as (_ & A & B).
+  unfold s. rewrite B, A. split; reflexivity.
 Qed.
